@@ -238,7 +238,7 @@ impl Scenario for Chaos {
         sim.max_steps = 400_000_000;
         let mut bad_files = vec![];
         if self.full_stack {
-            let kinds = ["invalid-utf8", "directory", "dangling-symlink", "symlink-loop", "empty", "bad-entry-points", "bad-direct-url", "bad-pth", "bad-pyproject", "nul-bytes"];
+            let kinds = ["invalid-utf8", "directory", "dangling-symlink", "symlink-loop", "empty", "bad-entry-points", "bad-direct-url", "bad-pth", "bad-pyproject", "nul-bytes", "non-ascii-dist-info"];
             for k in kinds {
                 if rng.chance(300) {
                     let path = match k {
@@ -246,6 +246,7 @@ impl Scenario for Chaos {
                         "bad-direct-url" => ".venv/lib/python3.11/site-packages/y-1.0.dist-info/direct_url.json".to_string(),
                         "bad-pth" => ".venv/lib/python3.11/site-packages/__editable__.y-1.0.pth".to_string(),
                         "bad-pyproject" => "pyproject.toml".to_string(),
+                        "non-ascii-dist-info" => format!(".venv/lib/python3.11/site-packages/{}-1.0.dist-info/direct_url.json", rng.pick(&["café", "пакет", "包-裹", "a\u{301}b"])),
                         _ => format!("{}test_bad_{}.py", if rng.chance(500) { "sub/" } else { "" }, k.replace('-', "_")),
                     };
                     bad_files.push((path, k.to_string()));
@@ -516,6 +517,13 @@ fn write_bad(root: &Path, path: &str, kind: &str) {
             let _ = std::fs::write(&p, "import os\n\0\n../..\n/nonexistent/\u{3000}\n\n");
             let _ = std::fs::create_dir_all(root.join(".venv/lib/python3.11/site-packages/y-1.0.dist-info"));
             let _ = std::fs::write(root.join(".venv/lib/python3.11/site-packages/y-1.0.dist-info/direct_url.json"), "{\"dir_info\": {\"editable\": true}, \"url\": \"file:///x\"}");
+        }
+        "non-ascii-dist-info" => {
+            // an editable install whose distribution name is not ASCII (plus a plausible .pth and entry point)
+            let _ = std::fs::write(&p, "{\"dir_info\": {\"editable\": true}, \"url\": \"file:///nowhere\"}");
+            if let Some(d) = p.parent() {
+                let _ = std::fs::write(d.join("entry_points.txt"), "[pytest11]\nx = x_plugin\n");
+            }
         }
         "bad-pyproject" => {
             let _ = std::fs::write(&p, "[tool.pytest-language-server]\nexclude = [\"[\", 3]\ndisabled_diagnostics = \"all\"\n[[[\n");
